@@ -362,6 +362,7 @@ class Parser:
             "columns_def",
             "after_columns",
             "check",
+            "check_depth",
             "is_table",
             "last_par",
             "lp_open",
